@@ -96,15 +96,20 @@ class Context:
         # Basic type constructors (minimal implementations)
         self._globals["Object"] = self._create_object_constructor()
         self._globals["Array"] = self._create_array_constructor()
-        self._globals["Error"] = self._create_error_constructor("Error")
-        self._globals["TypeError"] = self._create_error_constructor("TypeError")
-        self._globals["SyntaxError"] = self._create_error_constructor("SyntaxError")
-        self._globals["ReferenceError"] = self._create_error_constructor(
-            "ReferenceError"
-        )
-        self._globals["RangeError"] = self._create_error_constructor("RangeError")
-        self._globals["URIError"] = self._create_error_constructor("URIError")
-        self._globals["EvalError"] = self._create_error_constructor("EvalError")
+        error_constructor = self._create_error_constructor("Error")
+        self._globals["Error"] = error_constructor
+        # The prototypes of the other error constructors inherit from Error.prototype
+        for error_name in (
+            "TypeError",
+            "SyntaxError",
+            "ReferenceError",
+            "RangeError",
+            "URIError",
+            "EvalError",
+        ):
+            self._globals[error_name] = self._create_error_constructor(
+                error_name, error_constructor.get("prototype")
+            )
 
         # Math object
         self._globals["Math"] = self._create_math_object()
@@ -501,12 +506,36 @@ class Context:
 
         return arr_constructor
 
-    def _create_error_constructor(self, error_name: str) -> JSCallableObject:
-        """Create an Error constructor (Error, TypeError, SyntaxError, etc.)."""
+    def _create_error_constructor(
+        self, error_name: str, parent_prototype: Optional[JSObject] = None
+    ) -> JSCallableObject:
+        """Create an Error constructor (Error, TypeError, SyntaxError, etc.).
+
+        parent_prototype is Error.prototype for the constructors other than Error.
+        """
         # Add prototype first so it can be captured in closure
-        error_prototype = JSObject()
+        error_prototype = JSObject(parent_prototype)
         error_prototype.set("name", error_name)
         error_prototype.set("message", "")
+
+        if parent_prototype is None:
+
+            def error_to_string(this_val, *args):
+                # Error.prototype.toString: "name: message", either part alone
+                # when the other is empty
+                if not isinstance(this_val, JSObject):
+                    raise JSTypeError("Error.prototype.toString called on non-object")
+                name = this_val.get("name")
+                name = "Error" if name is UNDEFINED else to_string(name)
+                message = this_val.get("message")
+                message = "" if message is UNDEFINED else to_string(message)
+                if not name:
+                    return message
+                if not message:
+                    return name
+                return name + ": " + message
+
+            error_prototype.set("toString", JSBoundMethod(error_to_string))
 
         def error_constructor(*args):
             message = args[0] if args else UNDEFINED
